@@ -531,7 +531,7 @@ func (srv *server) sendWillLocked(msg *gmqtt.Message, clientID string) {
 	if req.Message == nil {
 		return
 	}
-	srv.deliverMessage(clientID, msg, defaultIterateOptions(msg.Topic))
+	srv.deliverMessage(clientID, req.Message, defaultIterateOptions(req.Message.Topic))
 	if srv.hooks.OnWillPublished != nil {
 		srv.hooks.OnWillPublished(context.Background(), clientID, req.Message)
 	}
